@@ -34,6 +34,9 @@ PID = (REC, 'pid')
 EVLINK = ('wait_event', 'list')
 REAP = ('wait4', 'waitpid')
 ALLOC = ('malloc', 'calloc')
+LINKREC = 'iv_list_head'
+QHEAD = ('queue',)        # identity of "the pending queue of an interest" as a list head
+TRANSFER = ('__iv_list_steal_elements', 'iv_list_splice', 'iv_list_splice_init', 'iv_list_splice_tail', 'iv_list_splice_tail_init')
 
 NZ = 0x5A5A0000          # abstract "some non-null pointer / some positive number"
 NE0 = 0x5A5A0001         # abstract "some non-zero integer of unknown sign"
@@ -471,8 +474,142 @@ class View:
         return self.group_of(b if b is not None else x)
 
     def is_queue(self, e):
-        return e['ev'] == 'call' and e.get('callee') in ('iv_list_add_tail', 'iv_list_add') and len(e['args']) > 1 \
-            and self.addr_member(e['args'][1]) == QUEUE
+        """an insertion of a list element into the pending queue of an interest: at the queue head object
+        (`&X->events_pending`) or relative to its first / last element (`X->events_pending.prev`)"""
+        p = self.list_position(e)
+        return p is not None and p[0] == QHEAD
+
+    def queue_owner(self, e):
+        """the interest expression X of a queue insertion (is_queue) into X->events_pending"""
+        if self.addr_member(e['args'][1]) == QUEUE:
+            return self.addr_base(e['args'][1])
+        m = strip(self.value_origin(e['args'][1]))          # X->events_pending.prev, or q->prev with q = &X->events_pending
+        if isinstance(m, dict) and m.get('k') == 'member' and m.get('record') == LINKREC:
+            b = strip(m['base'])
+            if m.get('arrow'):
+                b = strip(self.origin(b))
+                b = strip(b['e']) if isinstance(b, dict) and b.get('k') == 'addr' else None
+            if isinstance(b, dict) and b.get('k') == 'member' and last_member(b) == QUEUE:
+                return b['base']
+        return None
+
+    # ---- lists: identity of a list head, position of an insertion, derivation of a link pointer ----
+    def list_object(self, o):
+        """identity of the list head an object expression (not a pointer) is: QHEAD for the pending queue of an
+        interest (whichever interest), ('list', name) for a list-head variable, ('field', record, field) for a
+        list head embedded in another record; None when the expression is no list head"""
+        o = strip(o)
+        if not isinstance(o, dict):
+            return None
+        if o.get('k') == 'deref':
+            return self.list_ptr(o['e'])
+        if o.get('k') == 'member' and o.get('trecord') == LINKREC and not o.get('tptr'):
+            lm = last_member(o)
+            if lm == QUEUE:
+                return QHEAD
+            if lm == EVLINK:
+                return None           # the link of a status record is an element, not a head
+            return ('field',) + tuple(lm)
+        if o.get('k') == 'var' and o.get('record') == LINKREC and not o.get('ptr'):
+            return ('list', o['name'])
+        return None
+
+    def list_ptr(self, p):
+        """identity of the list head a pointer expression designates (`&events`, `&X->events_pending`, a local that
+        caches such an address, a helper's parameter bound to it), else None"""
+        a = strip(self.origin(p))
+        if isinstance(a, dict) and a.get('k') == 'addr':
+            return self.list_object(a['e'])
+        return None
+
+    def link_of(self, x):
+        """x = `H.next` / `H.prev` / `hp->next` / `hp->prev` of a list head H: (H, field), else None"""
+        m = strip(self.value_origin(x))
+        if not (isinstance(m, dict) and m.get('k') == 'member' and m.get('record') == LINKREC and m.get('field') in ('next', 'prev')):
+            return None
+        hd = self.list_ptr(m['base']) if m.get('arrow') else self.list_object(m['base'])
+        return (hd, m['field']) if hd is not None else None
+
+    def list_position(self, e):
+        """(list head, end) of an element insertion `iv_list_add(_tail)(elem, pos)`: end is 'tail' when the element
+        becomes the last of the list (add_tail at the head object, add after `head.prev`), 'head' when it becomes
+        the first (add at the head object, add_tail before `head.next`), 'middle' otherwise; None when pos does not
+        designate a known list"""
+        if not (e['ev'] == 'call' and e.get('callee') in ('iv_list_add_tail', 'iv_list_add') and len(e.get('args', [])) > 1):
+            return None
+        tail = e['callee'] == 'iv_list_add_tail'
+        hd = self.list_ptr(e['args'][1])
+        if hd is not None:
+            return (hd, 'tail' if tail else 'head')
+        lk = self.link_of(e['args'][1])
+        if lk is not None:
+            hd, f = lk
+            if f == 'prev' and not tail:
+                return (hd, 'tail')
+            if f == 'next' and tail:
+                return (hd, 'head')
+            return (hd, 'middle')
+        return None
+
+    def link_derivation(self, x):
+        """Where a pointer to a list element comes from: (fields, heads, unknown).  `fields` are the link fields
+        (`next` / `prev`) followed from a list head to reach it, through every definition of the locals involved
+        (`lh = events.next; lh2 = lh->next; lh = lh2`, a pop helper's parameter and return temporary, `we->list.next`),
+        `heads` the list heads the walk starts from, `unknown` what could not be interpreted."""
+        fields, heads, unknown = set(), set(), []
+        seen = set()
+        work = [x]
+        while work:
+            n = strip(work.pop())
+            if not isinstance(n, dict):
+                continue
+            k = n.get('k')
+            if k in ('null', 'int'):
+                continue
+            if k == 'var':
+                if n.get('vk') not in ('local', 'param'):
+                    unknown.append(canon(n))
+                    continue
+                if n['name'] in seen:
+                    continue
+                seen.add(n['name'])
+                ds = self.defs.get(n['name'], [])
+                if not ds:
+                    unknown.append('`%s` (no definition in the root)' % n['name'].split('@')[0])
+                for d in ds:
+                    if d.get('op') == '=' and 'rhs' in d:
+                        work.append(d['rhs'])
+                    else:
+                        unknown.append(canon(d.get('lhs')))
+            elif k == 'member' and n.get('record') == LINKREC and n.get('field') in ('next', 'prev'):
+                fields.add(n['field'])
+                b = strip(n['base'])
+                hd = self.list_ptr(b) if n.get('arrow') else self.list_object(b)
+                if hd is not None:
+                    heads.add(hd)
+                elif n.get('arrow'):
+                    work.append(b)                    # a link pointer that walks on
+                elif isinstance(b, dict) and b.get('k') == 'member' and last_member(b) == EVLINK:
+                    work.append(b['base'])            # R->list.next: from one record to its neighbour
+                else:
+                    unknown.append(canon(b))
+            elif k == 'addr':
+                m = strip(n['e'])
+                if isinstance(m, dict) and m.get('k') == 'member' and last_member(m) == EVLINK:
+                    work.append(m['base'])
+                elif self.list_object(m) is not None:
+                    heads.add(self.list_object(m))    # a cursor that starts at the head itself (`lh = &events; while ((lh = lh->next) != &events)`)
+                else:
+                    unknown.append(canon(n))
+            elif k == 'container_of':
+                work.append(n['e'])
+            elif k == 'cond':
+                work += [n['a'], n['b']]
+            elif k == 'assign' and n.get('op') == '=':
+                work.append(n['l'])
+            else:
+                unknown.append(canon(n))
+        return fields, heads, unknown
 
     def is_flag_store(self, e):
         return e['ev'] == 'store' and lvalue_steps(e['lhs'])[:1] == [FLAGS]
@@ -1077,7 +1214,7 @@ def reaper_scenario(v, reap, status, lock=None, order=None, whole=False):
                 add.add(('done', grp))
             elif ('done', grp) in facts:
                 add.add('DOUBLE')
-            add.add(('Q', v.group_of(v.addr_base(e['args'][1]))))
+            add.add(('Q', v.group_of(v.queue_owner(e))))
         elif v.is_delete(e):
             add.add(('D', v.node_group(e['args'][1])))
         elif v.is_flag_store(e):
@@ -1192,3 +1329,122 @@ def unlink_scenario(v, classify):
             if isinstance(f, tuple) and (f[0] == 'leak' or (f[0] == 'own' and kind != 'noreturn')):
                 bad.add(f[-1])
     return bad
+
+
+# --------------------------------------------------------------------------
+# order of the statuses of one child (seeded round 3)
+# --------------------------------------------------------------------------
+
+def queue_inserts(prog):
+    """Every way a status record enters the pending queue of an interest, in every root of the unit:
+    [(view, event, end)], end in 'tail' / 'head' / 'middle' (View.list_position), or for a link field of the queue
+    head written by hand: `X->events_pending.prev = &R->list` makes R the last ('tail'), `.next = &R->list` the first."""
+    out = []
+    for v in views(prog):
+        for e in v.g.events():
+            end = None
+            if v.is_queue(e):
+                end = v.list_position(e)[1]
+            elif e['ev'] == 'store' and e.get('op') == '=' and 'rhs' in e:
+                l = strip(e['lhs'])
+                if isinstance(l, dict) and l.get('k') == 'member' and l.get('record') == LINKREC and l.get('field') in ('next', 'prev') \
+                        and (v.list_ptr(l['base']) if l.get('arrow') else v.list_object(l['base'])) == QHEAD \
+                        and v.addr_member(e['rhs']) == EVLINK:
+                    end = 'tail' if l['field'] == 'prev' else 'head'
+            if end is not None and v.reached(e):
+                out.append((v, e, end))
+    return out
+
+
+def list_fill(v, hd, depth=4):
+    """How the elements of the list head `hd` of a root relate to the pending queue they were taken from: a set of
+    signs, +1 when they stand in queue order (first of the queue first), -1 when reversed.  The queue itself is +1;
+    a list filled by __iv_list_steal_elements / iv_list_splice* from a list L has the order of L; a list filled
+    element by element (`iv_list_add(_tail)(x, &hd)`, x taken from the head / the tail of L) has the order of L iff
+    elements taken from the head are appended at the tail or elements taken from the tail are put at the head."""
+    if hd == QHEAD:
+        return {1}
+    if depth <= 0:
+        raise AnalysisBroken('delivery: chain of list transfers too long')
+    signs = set()
+    for e in v.g.events():
+        if not v.reached(e):
+            continue
+        if e['ev'] == 'call' and e.get('callee') in TRANSFER and len(e.get('args', [])) == 2 and v.list_ptr(e['args'][1]) == hd:
+            src = v.list_ptr(e['args'][0])
+            if src is None:
+                raise AnalysisBroken('delivery: %s at %s moves the elements of an unknown list' % (e['callee'], e.get('loc')))
+            if src != hd:
+                signs |= list_fill(v, src, depth - 1)
+            continue
+        pos = v.list_position(e)
+        if pos is not None and pos[0] == hd:
+            fields, heads, unknown = v.link_derivation(e['args'][0])
+            heads = heads - {hd}
+            if not heads and not unknown:
+                continue                  # an element of the list itself put back
+            if unknown or len(fields) != 1 or pos[1] == 'middle':
+                raise AnalysisBroken('delivery: cannot tell where the element inserted at %s comes from' % e.get('loc'))
+            s = 1 if (('next' in fields) == (pos[1] == 'tail')) else -1
+            for h2 in heads:
+                signs |= {s * t for t in list_fill(v, h2, depth - 1)}
+            continue
+        if e['ev'] == 'store' and e.get('op') == '=' and 'rhs' in e:
+            # the head's links written by hand: `hd.next = L.next; hd.prev = L.prev` takes over the elements of L in order
+            l = strip(e['lhs'])
+            if isinstance(l, dict) and l.get('k') == 'member' and l.get('record') == LINKREC and l.get('field') in ('next', 'prev') \
+                    and (v.list_ptr(l['base']) if l.get('arrow') else v.list_object(l['base'])) == hd:
+                fields, heads, unknown = v.link_derivation(e['rhs'])
+                heads = heads - {hd}
+                if not heads:
+                    continue              # unlinking / re-initialising within the list
+                if unknown or fields != {l['field']}:
+                    raise AnalysisBroken('delivery: cannot interpret the list surgery at %s' % e.get('loc'))
+                for h2 in heads:
+                    signs |= list_fill(v, h2, depth - 1)
+    return signs
+
+
+def deliveries(prog):
+    """[(view, designation event, need, how)] for every root that calls a wait handler: each designation
+    `R = container_of(link, wait_event, list)` of a record whose fields are handed to the handler, with
+    need = +1 when the handler sees the statuses in the order they arrived iff the queue holds the oldest status
+    first (records taken from the head of a list in queue order, or from the tail of a reversed one), -1 when it
+    needs the newest first."""
+    out = []
+    for v, cbs in contexts(prog, 'is_wait_callback'):
+        g = v.g
+        given = set()
+        for e in cbs:
+            for a in e.get('args', []):
+                for n in walk(v.value_origin(a)):
+                    if n.get('k') == 'member' and n.get('record') == EVLINK[0] and n.get('arrow'):
+                        rv = root_var(n['base'])
+                        if rv is not None:
+                            given.add(v.group(rv['name']))
+        conts = [e for e in g.events() if e['ev'] == 'store' and 'rhs' in e and lval(e['lhs']).get('k') == 'var'
+                 and isinstance(strip(e['rhs']), dict) and strip(e['rhs']).get('k') == 'container_of'
+                 and (strip(e['rhs']).get('record'), strip(e['rhs']).get('member')) == EVLINK and v.reached(e)]
+        # (when the handler is given copies only, `st = we->status; free(we); handler(.., st, ..)` with a status local
+        #  defined more than once, every record the root designates counts: a delivery root designates records to deliver them)
+        mine = [c for c in conts if v.group(lval(c['lhs'])['name']) in given] or conts
+        if not mine:
+            raise AnalysisBroken('delivery: no status record designated from a list (container_of(.., wait_event, list)) reaches the '
+                                 'handler call in %s' % v.root.name)
+        for c in mine:
+            fields, heads, unknown = v.link_derivation(strip(c['rhs'])['e'])
+            if unknown or not heads or len(fields) != 1:
+                raise AnalysisBroken('delivery: cannot tell from which end of which list the record designated at %s is taken (%s)'
+                                     % (c.get('loc'), ', '.join(unknown) or ('links followed: %s' % sorted(fields))))
+            take = 1 if 'next' in fields else -1
+            for hd in sorted(heads):
+                signs = list_fill(v, hd)
+                if not signs:
+                    raise AnalysisBroken('delivery: the list the record designated at %s is taken from is never filled from an interest queue'
+                                         % c.get('loc'))
+                for s in sorted(signs):
+                    how = 'takes the %s element of %s' % ('first' if take == 1 else 'last',
+                                                         'the queue' if hd == QHEAD else
+                                                         'a list that holds the queued records in %s order' % ('queue' if s == 1 else 'reversed'))
+                    out.append((v, c, take * s, how))
+    return out
